@@ -125,8 +125,9 @@ def build(tool, args, stdin_text=None):
         reset_globals()
 
 
-def run_subprocess(tool, args, stdin_text=None, cwd=None, hashseed='0', timeout=120, extra_env=None, stdout_path=None):
-    """Real process: python -c 'from <module> import main; main()'."""
+def run_subprocess(tool, args, stdin_text=None, cwd=None, hashseed='0', timeout=120, extra_env=None, stdout_path=None, stdin_fd=None, stderr_fd=None):
+    """Real process: python -c 'from <module> import main; main()'.
+    stdin_fd / stderr_fd: an open file descriptor (e.g. the slave side of a pseudo-terminal) to use instead of a pipe."""
     repo = os.environ.get('VERIF_REPO', '/repo')
     env = {k: v for k, v in os.environ.items() if k not in ('PYTHONHASHSEED',)}
     env['PYTHONPATH'] = repo
@@ -137,6 +138,12 @@ def run_subprocess(tool, args, stdin_text=None, cwd=None, hashseed='0', timeout=
     code = "import sys; sys.argv[0]={!r}; from {} import main; main()".format(tool, TOOLS[tool])
     sink = open(stdout_path, 'w') if stdout_path else None       # e.g. /dev/full: every write fails with ENOSPC
     try:
+        if stdin_fd is not None or stderr_fd is not None:
+            p = subprocess.run([sys.executable] + (['-O'] if sys.flags.optimize else []) + ['-c', code] + [str(a) for a in args],
+                               stdin=stdin_fd if stdin_fd is not None else subprocess.DEVNULL, encoding='utf-8', errors='replace',
+                               stdout=sink if sink is not None else subprocess.PIPE,
+                               stderr=stderr_fd if stderr_fd is not None else subprocess.PIPE, cwd=cwd or repo, env=env, timeout=timeout)
+            return Result(p.returncode & 0xFF, p.stdout or '', p.stderr or '', None)
         p = subprocess.run([sys.executable] + (['-O'] if sys.flags.optimize else []) + ['-c', code] + [str(a) for a in args],
                            input=(stdin_text if stdin_text is not None else ''), encoding='utf-8', errors='replace',
                            stdout=sink if sink is not None else subprocess.PIPE, stderr=subprocess.PIPE, cwd=cwd or repo, env=env, timeout=timeout)
